@@ -7,6 +7,7 @@ Binding: same executions as C03 (harness/drivers/codec_common.py); the decoded s
 picture of the same index (equality only, R2c); TLC decides whether the comparison applies and judges it.
 Alarm (R1): a decoded picture of a lossless / all-qindex-0 coded picture differs from its input (C04.Exact).
 """
+from .. import common
 from . import codec_common as cc
 
 
@@ -72,9 +73,90 @@ def run(ctx):
     ctx.coverage["lossy_runs_all_qindex0"] = lossy_q0
     ctx.coverage["lossy_runs_all_qindex0_nonflat_content"] = lossy_q0_nonflat
     ctx.coverage["lossy_runs_not_applicable"] = sum(1 for r in recs if r["cfg"]["mode"] != "hq_lossless" and not (r["q0"] and any(r["q0"])))
+    ctx.coverage["supplementary_runs"] = supplement(ctx, out["cfgs"])
     # (vacuity of the clause as a whole is checked by run_family; the lossy/qindex-0 part is reported, not required,
     #  because a change to the rate control -- property C14 -- may legitimately make it empty)
 
 
+# ---------------------------------------------------------------------------------- supplements
+# (a) low-delay pictures with a generous byte budget (every slice reaches qindex 0) and noisy content: the only
+#     place where DC prediction (13.4) and its encoder-side inverse meet exact reconstruction;
+# (b) streams of TWO sequences (asymmetric lossless sequence followed by a symmetric one and vice versa): the
+#     automatic field filling works per stream, the property per decoded picture.
+def _ld_q0_job(i, c, seed):
+    cfg = dict(c["cfg"], minq=0, minscaler=1, content=("random" if i % 3 else "checker"), pb="q0")
+    dm = c["outcome"]["dims"]
+    raw = (dm["yw"] * dm["yh"] + 2 * dm["cw"] * dm["ch"]) * 8 + 64 * cfg["sx"] * cfg["sy"]
+    return {"tid": i + 1, "cfg": cfg, "outcome": dict(c["outcome"], picture_bytes=raw), "seed": seed, "repack": []}
+
+
+def two_sequence_run(arg):
+    """encode two configurations as ONE stream of two sequences; decode; compare every picture with its input"""
+    from io import BytesIO
+    from vc2_conformance.encoder.sequence import make_sequence
+    from vc2_conformance.bitstream import Stream, autofill_and_serialise_stream
+
+    tid, a, b, seed = arg
+    rec = dict(cc.EMPTY_STREAM)
+    rec.update({"tid": tid, "ev": "run", "kind": "encoder", "cfg": a["cfg"], "npics": a["cfg"]["npics"] + b["cfg"]["npics"], "enc": "ok", "ser": "ok", "verdict": "none", "pics": []})
+    try:
+        fa, fb = cc.make_features(a["cfg"], a["outcome"]), cc.make_features(b["cfg"], b["outcome"])
+        pa, pb = cc.make_pictures(dict(a["cfg"], pn="auto"), a["outcome"], seed), cc.make_pictures(dict(b["cfg"], pn="auto"), b["outcome"], seed + 1)
+        f = BytesIO()
+        autofill_and_serialise_stream(f, Stream(sequences=[make_sequence(fa, pa), make_sequence(fb, pb)]))
+        data = f.getvalue()
+    except Exception as e:  # noqa
+        rec["enc"] = "crash"
+        return {"records": [rec], "detail": {"exc": common.exc_signature(e)}}
+    verdict, sig, pics = cc.decode(data, None, pa + pb)
+    rec["verdict"], rec["pics"] = verdict, pics
+    # both sequences are lossless: every picture is judged
+    rec["q0"] = [True] * len(pics)
+    return {"records": [rec], "detail": {"exc": sig}}
+
+
+def supplement(ctx, cfgs):
+    allc = cc.LAST_ALL or cfgs
+    ld = [c for c in allc if c["cfg"]["mode"] == "ld_lossy" and c["cfg"]["d"] + c["cfg"]["dho"] <= 2]
+    jobs = [_ld_q0_job(i, c, ctx.seed * 13 + i) for i, c in enumerate(ld[: ctx.pick(150, 1500)])]
+    results = cc.run_jobs(jobs)
+    ll = [c for c in allc if c["cfg"]["mode"] == "hq_lossless"]
+    asym = [c for c in ll if c["cfg"]["wi"] != c["cfg"]["wiho"] or c["cfg"]["dho"] > 0]
+    sym = [c for c in ll if c["cfg"]["wi"] == c["cfg"]["wiho"] and c["cfg"]["dho"] == 0]
+    # prefer symmetric sequences that need a LOWER major_version than an asymmetric one (no fragments, no
+    # version-3 preset): then the two sequences of a stream really differ in what automatic filling must write
+    low = [c for c in sym if c["cfg"]["fsc"] == 0 and c["cfg"]["range"] in (1, 2, 3, 7, 8, 9) and c["cfg"].get("colour", "base") in ("base", "rgb_matrix", "sd625", "hdtv_rgb")]
+    sym = low + [c for c in sym if c not in low]
+    plain_asym = [c for c in asym if c["cfg"]["fsc"] == 0 and c["cfg"]["range"] in (1, 2, 3, 7, 8, 9)]
+    asym = plain_asym + [c for c in asym if c not in plain_asym]
+    pairs = []
+    for i in range(min(len(asym), ctx.pick(60, 600))):
+        pairs.append((len(pairs) + 1, asym[i], (low[i % len(low)] if low else sym[i % len(sym)]), ctx.seed * 17 + i))
+        pairs.append((len(pairs) + 1, sym[i % len(sym)], asym[-1 - i], ctx.seed * 19 + i))
+    results2 = common.pmap(two_sequence_run, pairs)
+    records, owner = cc.flatten(results + results2)
+    bad, applied, res = cc.judge(records)
+    ctx.add_tlc(res, "trace validation (CodecTrace) of %d supplementary runs (low-delay qindex-0 pictures, two-sequence streams)" % len(records))
+    n_ld_q0 = sum(1 for r in records[: len(results)] if r["q0"] and all(r["q0"]) and r["pics"])
+    n_two = sum(1 for r in records[len(results):] if r["verdict"] == "accepted")
+    for b in bad:
+        if b["clause"].startswith("C04.") and b["alarm"]:
+            i = b["line"] - 1
+            rec = records[i]
+            if i < len(results):
+                ctx.violation("C04|Exact|ld-qindex0|", "C04.Exact on a low-delay run with every slice at qindex 0: cfg %s" % rec["cfg"], cc.case_of(jobs[i]))
+            else:
+                a = pairs[i - len(results)]
+                ctx.violation("C04|Exact|two-sequences|", "C04.Exact on a two-sequence stream: cfgs %s / %s" % (a[1]["cfg"], a[2]["cfg"]), {"two": [a[1], a[2], a[3]]})
+    if n_ld_q0 < 20 or n_two < 20:
+        raise RuntimeError("vacuous supplement: %d low-delay all-qindex-0 runs, %d accepted two-sequence streams" % (n_ld_q0, n_two))
+    return {"low_delay_all_qindex0_runs": n_ld_q0, "two_sequence_streams_accepted": n_two}
+
+
 def replay(case):
+    if "two" in case:
+        a, b, seed = case["two"]
+        r = two_sequence_run((1, a, b, seed))
+        bad, _, _ = cc.judge(r["records"])
+        return {"violations": [x for x in bad if x["alarm"] and x["clause"].startswith("C04.")], "detail": r["detail"]}
     return cc.replay_case(case, "C04")
